@@ -52,7 +52,22 @@ func newRunner(r *vh.Rand) vh.Runner {
 	if zrtt == "none" && vn != "fail" {
 		netMode = pickS(r, []string{"ok", "blackhole", "hsblock"}, 94, 2, 4)
 	}
-	rn.plan = append(rn.plan, fmt.Sprintf("scn client=%s retry=%s vn=%s chain=%s zrtt=%s net=%s", client, boolTxt(retry), vn, chain, zrtt, netMode))
+	cancel := "none"
+	if zrtt == "none" && netMode == "ok" && r.Chance(12) {
+		// the application gives up: at a generated instant, or exactly when the client acts on a genuine Version
+		// Negotiation packet / accepts a Retry / processes its first packet
+		switch {
+		case vn == "ok" && r.Chance(60):
+			cancel = "vn"
+		case retry && r.Chance(50):
+			cancel = "retry"
+		case r.Chance(30):
+			cancel = "first"
+		default:
+			cancel = fmt.Sprintf("t%d", r.Pick(30, 40, 30)*20+r.Intn(25))
+		}
+	}
+	rn.plan = append(rn.plan, fmt.Sprintf("scn client=%s retry=%s vn=%s chain=%s zrtt=%s net=%s cancel=%s", client, boolTxt(retry), vn, chain, zrtt, netMode, cancel))
 	nf := r.Pick(40, 30, 20, 10)
 	for i := 0; i < nf; i++ {
 		kind := pickS(r, []string{"drop", "dup", "delay", "flip", "trunc"}, 40, 20, 15, 20, 5)
@@ -98,6 +113,17 @@ func newRunner(r *vh.Rand) vh.Runner {
 			ps = append(ps, fmt.Sprintf("src=%d", r.Intn(4)))
 		case "corrupt":
 			ps = append(ps, fmt.Sprintf("src=%d", r.Intn(4)), fmt.Sprintf("bit=%d", r.Intn(10000)))
+		}
+		if zrtt == "none" && r.Chance(35) {
+			// the same attacker, aiming at the server: after the `after`-th client datagram reached it (>= 1: the
+			// server has a connection and has processed the client's first packet)
+			switch kind {
+			case "retry", "vn", "initial", "handshake", "short", "replay", "corrupt", "coalesce", "0rtt", "unsupported", "tinylong":
+				ps = append(ps, "to=s")
+				if after == 0 {
+					after = 1 + r.Intn(3)
+				}
+			}
 		}
 		rn.plan = append(rn.plan, strings.TrimSpace(fmt.Sprintf("inj %d after=%d delay=%d kind=%s seed=%d %s", i+1, after, delay, kind, r.U64()>>1, strings.Join(ps, " "))))
 	}
@@ -169,7 +195,7 @@ func (rn *runner) Exec(op string) string {
 			return "skip"
 		}
 		m := kv(f[1:])
-		rn.spec = scnSpec{client: m["client"], retry: m["retry"] == "1", vn: m["vn"], chain: m["chain"], zrtt: m["zrtt"], net: m["net"]}
+		rn.spec = scnSpec{client: m["client"], retry: m["retry"] == "1", vn: m["vn"], chain: m["chain"], zrtt: m["zrtt"], net: m["net"], cancel: m["cancel"]}
 		if rn.spec.client == "" {
 			rn.spec.client = "plain"
 		}
@@ -206,14 +232,26 @@ func (rn *runner) Exec(op string) string {
 		running.Store(&desc)
 		runStart.Store(time.Now().UnixNano())
 		defer running.Store(nil)
-		synctest.Test(theT, func(t *testing.T) {
-			sc.t = t
-			if sc.spec.zrtt != "" && sc.spec.zrtt != "none" {
-				rn.out = sc.runZeroRTT()
-			} else {
-				rn.out = sc.run()
-			}
-		})
+		func() {
+			// a Dial that never returns leaves its goroutine blocked for ever: synctest reports the bubble as
+			// deadlocked when the scenario ends. The outcome was already recorded; the case goes on.
+			defer func() {
+				if e := recover(); e != nil {
+					if rn.out == nil || !rn.out.leaked {
+						panic(e)
+					}
+				}
+			}()
+			synctest.Test(theT, func(t *testing.T) {
+				sc.t = t
+				if sc.spec.zrtt != "" && sc.spec.zrtt != "none" {
+					rn.out = sc.runZeroRTT()
+				} else {
+					sc.outp = &rn.out
+					rn.out = sc.run()
+				}
+			})
+		}()
 		if rn.out == nil {
 			return "E:bubble"
 		}
